@@ -19,8 +19,9 @@ variable [FloatOracle]
 
 /-- the event granularity of this model is that of the code: `handle_notify` has no suspension point and, once the
     SID is registered, `async_subscribe` suspends nowhere but in the replay's `await self.handle_notify(…)` (which
-    itself never yields) — read from the source by `tools/gen_c11race.py`, pinned by `C11.atomicity_pinned` -/
-def atomicOk : Bool := Gen.C11Race.handleNotifyAwaits == 0 && Gen.C11Race.tailOtherAwaits == 0
+    itself never yields; exactly one such `await`: the replay loop is there) — read from the source by `tools/gen_c11race.py`, pinned by `C11.atomicity_pinned` -/
+def atomicOk : Bool :=
+  Gen.C11Race.handleNotifyAwaits == 0 && Gen.C11Race.tailOtherAwaits == 0 && Gen.C11Race.tailReplayAwaits == 1
 
 inductive Ev
   | start (svc : Nat) (timeout : Int)
